@@ -10,7 +10,7 @@ RULES = {
     'C09.R3': 'path-condition stack discipline of PolyhedraGen::next: |predicates| = depth of the reported node after every call (also after deep returns and skips)',
     'C09.R5': 'the leaf flag tested by find_terminal means "no children" after every tree mutation (effect contracts shared with C12.R2)',
     'C09.R4': 'each node is reported once in depth-first order with correct depth and sibling counters, also after skips (DfsPre rules shared with C13)',
-    'C09.R2': 'find_terminal pushes the label it follows and returns the node it reached; PolyhedraGen::next builds the predicate from the parent edge of the node it reports',
+    'C09.R2': 'find_terminal pushes the label it follows and returns the node it reached; PolyhedraGen::next builds the predicate from the parent edge of the node it reports; PolyhedraIter re-packs the generator\'s item as (depth, index, n_remaining, polytopes) over the same tree and the entry points polyhedra / polyhedra_iter / new / skip_subtree delegate as written',
 }
 WRAPPERS = {
     'PolyhedraIter::new': (['PolyhedraIter::PolyhedraIter{PolyhedraGen::new(tree), tree}', 'PolyhedraIter::PolyhedraIter{PolyhedraGen::with_root(tree, Tree::get_root_idx(tree)), tree}'], [], 'generator from the root of the tree it is later stepped with'),
